@@ -1,0 +1,12 @@
+//go:build verif
+
+package dcache
+
+// VerifEntries returns a copy of the cached directory entries.
+func (dc *Dcache) VerifEntries() map[string]Dentry {
+	m := make(map[string]Dentry, len(dc.cache))
+	for k, v := range dc.cache {
+		m[k] = v
+	}
+	return m
+}
